@@ -13,6 +13,14 @@ if [ ! -x $V/bin/instrument ] || [ $V/sim/instrument/main.go -nt $V/bin/instrume
   (cd $V/sim/instrument && go build -o $V/bin/instrument .)
 fi
 $V/bin/instrument -root "$S/repo" timeout kvs/inmem kvs/distlock kvs/redis container/lru container/iterable container/bytes chans ulidutils > "$S/instrument.jsonl"
+# dependencies whose code the library runs WITHOUT a lock of its own are rewritten as well (version strings come
+# from oklog/ulid: whether its entropy source is used in a thread-safe way is part of C02's "never handed out before")
+ULID_SRC="$(cd "$S/repo" && go list -m -f '{{.Dir}}' github.com/oklog/ulid/v2)"
+if [ -z "$ULID_SRC" ] || [ ! -f "$ULID_SRC/ulid.go" ]; then echo "build.sh: oklog/ulid source not found in the module cache" >&2; exit 2; fi
+mkdir -p "$S/deps/ulid"
+cp "$ULID_SRC/ulid.go" "$ULID_SRC/go.mod" "$S/deps/ulid/"
+chmod -R u+w "$S/deps"
+$V/bin/instrument -root "$S/deps/ulid" . > "$S/instrument-deps.jsonl"
 (cd $V/sim/overlay && find . -name '*.go' | while read f; do mkdir -p "$S/repo/$(dirname $f)"; cp "$f" "$S/repo/$f"; done)
 python3 - "$S" <<'PY'
 import sys
